@@ -6,6 +6,16 @@ import numpy as np
 from scipy.interpolate import RegularGridInterpolator
 
 
+def _cell_volume(xs):
+    """volume of every cell of the (possibly non-uniform) grid"""
+    vol = 1.0
+    for i, x in enumerate(xs):
+        shape = [1] * len(xs)
+        shape[i] = -1
+        vol = vol * np.reshape(np.diff(x), shape)
+    return vol
+
+
 class InterpND:
     def __init__(self, xs, z, indexing="ij"):
         self.indexing = indexing
@@ -71,10 +81,11 @@ class InterpND:
         self.int_all = np.zeros(int_shape)
 
         a = [[slice(0, -1), slice(1, None)]] * self.n_dim
+        vol = _cell_volume(self.xs)
         for i, j in enumerate(product(*a)):
             tmp = self.z.__getitem__(j)
             # print(self.int_all[i], self.z, j, tmp)
-            self.int_all[i] = tmp
+            self.int_all[i] = tmp * vol
         self.int_all = self.int_all / (2**self.n_dim)
         self.int_step = np.cumsum(self.int_all.flatten())
 
@@ -145,7 +156,9 @@ class InterpNDHist:
         self.n_bins = 1
         for i in self.xs:
             self.n_bins *= i.shape[0] - 1
-        self.int_step = np.cumsum(self.coeffs.flatten())
+        self.int_step = np.cumsum(
+            (self.coeffs * _cell_volume(self.xs)).flatten()
+        )
 
     def generate(self, N):
         x = np.random.random((N, self.n_dim))
